@@ -12,6 +12,10 @@ CLAIMED = {
             "Seeded search: each run is one seeded configuration x workload x network behaviour x task schedule of a real client and a real listener joined by the simulated transport; every received message is compared (structure and re-encoded bytes) with a FIFO reference model per link, and every operation must complete within a virtual deadline. A clean batch is evidence, not proof; reach probes and seeded-fault drills (DESIGN 2.11) say what the batch reached.",
             "Trusted: the simulator (executor, SimStream, choice stream), tokio's paused clock, and the crate's own message encoder as the definition of 'the bytes the sender serialised'. Assumes the connection stays up, as the property states.",
             "FIFO reference model per link over a real client/listener pair", "3 C01"),
+    "C07": ("exploration",
+            "Seeded search over window histories: a real client session runs against a scripted peer that plays the receiving session end and issues seeded flow frames (window 0, shrinking windows, unset next-incoming-id, echo) while 1-3 real sender links push single- and multi-frame transfers; initial next-outgoing-id values include those within a window of 2^31 and 2^32. The wire monitor checks every transfer frame against the windows the peer had advertised (serial arithmetic; strict after simulator-proven quiescence), every reported next-outgoing-id/next-incoming-id against counted frames, and the scenario checks that held transfers come out exactly once, in order, unchanged, and all of them within a virtual deadline after the final window opening.",
+            "Trusted: the simulator, the independent frame splitter/codec (refcodec), tokio's paused clock. In-flight rule: a transfer is accepted if it fits any window statement not provably superseded, so races between flows and transfers in flight never alarm.",
+            "window reference model on the wire + bounded-liveness drain against a scripted session peer", "3 C07"),
 }
 
 NOT_APPLICABLE = {
